@@ -202,7 +202,7 @@ theorem pe_correct (C : QCtx D) (σ : Env D) (cur : CExpr) (curTy : Option Ty) (
     | error f => simp
     | ok va =>
       have hta := iha.2 va (by rw [← iha.1]; exact hea)
-      rw [hw.2] at hta ⊢
+      rw [hw.2] at hta
       obtain ⟨b, rfl⟩ := hasTy_bool hta
       simp [unop, asBool, HasTy]
 
